@@ -43,6 +43,10 @@ static Weights profile_weights(const std::string &prop) {
              {P::O_SLEEP, 7}, {P::O_DISPATCH, 12}, {P::O_DRAIN, 1}, {P::O_STOP, 0.5}, {P::O_START, 1}, {P::O_TMR_REG, 1}, {P::O_TMR_DEREG, 0.3}, {P::O_QUIT, 0.3}, {P::O_REG, 0.5}, {P::O_DEREG, 0.3}};
         s = {{P::O_TELL, 4}, {P::O_PUB, 2}, {P::O_SUB, 1}, {P::O_BECOME, 1}, {P::O_UNBECOME, 1}, {P::O_STASH, 1}, {P::O_SET_TB, 0.5}};
     }
+    if (prop == "C09reg") {
+        t = {{P::O_SRC_REG, 40}, {P::O_SRC_DEREG, 25}, {P::O_SUB, 6}, {P::O_UNSUB, 4}, {P::O_REG, 2}, {P::O_DEREG, 1}, {P::O_CTX_PROBE, 0.5}, {P::O_BATCH_TIMEOUT, 1}, {P::O_SET_TB, 1}};
+        s = {};
+    }
     else if (prop == "C04") { scale(t, {P::O_DROP_EVT, P::O_DROP_MODREF, P::O_DEREG}, 2); scale(s, {P::O_REF_EVT, P::O_DEREG, P::O_STOP, P::O_UNSUB}, 2.5); t[P::O_FLOOD] = 0.15; }
     return w;
 }
@@ -77,6 +81,7 @@ static rc::Gen<Op> gen_op_from(const std::map<int, double> &w, int nmods, const 
         case P::O_TMR_REG: ga = gens::range<long>(0, 6); gb = gens::weighted_values<long>({{4, 0}, {1, 1}, {1, 3}, {2, 4}}); break;
         case P::O_TMR_DEREG: ga = gens::range<long>(0, 6); break;
         case P::O_ERRNO: ga = gens::weighted_values<long>({{1, 4}, {1, 11}, {2, 2}, {2, 9}, {1, 32}, {1, 255}, {1, 22}}); break;
+        case P::O_SRC_REG: case P::O_SRC_DEREG: ga = gens::range<long>(1, 8); gb = gens::weighted_values<long>({{5, 0}, {5, 1}, {4, 2}, {3, 3}, {2, 4}, {2, 5}, {4, 6}, {4, 7}, {3, 8}, {2, 9}, {2, 10}, {2, 11}, {2, 99}}); break;
         case P::O_SET_TB: ga = gens::weighted_values<long>({{1, 0}, {2, 50}, {3, 100}, {3, 200}, {2, 500}, {2, 1000}, {1, 333}}); gb = gens::range<long>(1, 9); break;
         case P::O_SLEEP: ga = gens::weighted_values<long>({{2, 1}, {2, 3}, {1, 8}, {1, 25}}); break;
         default: break;
@@ -133,6 +138,11 @@ static rc::Gen<std::vector<Op>> gen_phrase(const Weights &w, int nmods, const st
             return v; });
     auto fdcycle = gen::map(gen::tuple(slot, gens::range<long>(0, 8), gens::weighted_values<long>({{4, 0}, {2, 1}, {1, 2}, {2, 4}, {1, 5}}), gens::range<long>(1, 4)), [](std::tuple<int, long, long, long> t) {
         return std::vector<Op>{mkop(P::O_FD_REG, std::get<0>(t), 0, std::get<1>(t), std::get<2>(t)), mkop(P::O_FD_WRITE, 0, 0, std::get<1>(t)), mkop(P::O_DISPATCH, 0, 0, std::get<3>(t))}; });
+    auto regburst = gen::map(gen::tuple(slot, gens::range<long>(1, 8), gens::vec<long>(3, 9, gens::range<long>(0, 12)), gens::vec<int>(3, 9, gens::weighted_values<int>({{3, 0}, {2, 1}}))), [](std::tuple<int, long, std::vector<long>, std::vector<int>> t) {
+        std::vector<Op> v; auto &keys = std::get<2>(t); auto &dirs = std::get<3>(t);
+        for (size_t i = 0; i < keys.size(); i++) v.push_back(mkop(dirs[i % dirs.size()] ? P::O_SRC_DEREG : P::O_SRC_REG, std::get<0>(t), 0, std::get<1>(t), keys[i]));
+        return v; });
+    if (prop == "C09reg") return gens::weighted<std::vector<Op>>({{40, single}, {60, regburst}});
     std::map<std::string, std::vector<size_t>> tab = {
         //            single deliver pub burst loop become stash batch tb fd
         {"C01", {70, 8, 6, 1, 8, 2, 1, 1, 0, 1}}, {"C02", {45, 12, 22, 6, 6, 2, 1, 2, 0, 1}}, {"C03", {45, 10, 8, 4, 8, 1, 1, 2, 0, 18}},
@@ -154,6 +164,7 @@ static rc::Gen<Script> gen_script(const Weights &w, int nmods, const std::string
         for (int c : {P::O_REG, P::O_DEREG, P::O_START, P::O_PAUSE, P::O_RESUME, P::O_STOP, P::O_PILL, P::O_CTX_DEREG, P::O_QUIT}) sw.erase(c);
     }
     if (kind != P::CB_EVT) { sw.erase(P::O_STASH); sw.erase(P::O_REF_EVT); }
+    if (sw.empty()) return gen::just(Script());
     if (prop == "C16" && kind == P::CB_EVT) sw[P::O_STASH] = 30;
     return gen::map(gen::tuple(gens::vec<Op>(0, 4, gen_op_from(sw, nmods, prop)), gens::weighted_values<int>({{5, 1}, {2, 0}}), gens::weighted_values<int>({{6, 0}, {1, 4}, {1, 11}, {1, 2}, {1, 9}})),
                     [](std::tuple<std::vector<Op>, int, int> t) { Script s; s.ops = std::get<0>(t); s.ret = std::get<1>(t); s.err = std::get<2>(t); return s; });
@@ -162,6 +173,8 @@ static rc::Gen<Script> gen_script(const Weights &w, int nmods, const std::string
 static rc::Gen<Prog> gen_prog(const rt::Args &args) {
     using namespace rc;
     std::string prop = args.prop;
+    const bool registry = args.profile == "registry";
+    if (registry) prop = "C09reg";
     Weights w = profile_weights(prop);
     return gen::mapcat(gens::weighted_values<int>({{1, 1}, {4, 2}, {4, 3}, {2, 4}}), [=](int nmods) {
         const size_t evt_lo = (prop == "C16" || prop == "C04") ? 2 : 0, evt_hi = (prop == "C16") ? 8 : 4;
@@ -179,7 +192,7 @@ static rc::Gen<Prog> gen_prog(const rt::Args &args) {
             std::vector<Op> v; for (auto &p : ph) for (auto &o : p) v.push_back(o);
             if (v.size() > 70) v.resize(70); return v; });
         return gen::map(gen::tuple(scripts, hooks, prelude, body), [=](std::tuple<std::vector<std::vector<std::vector<Script>>>, std::vector<int>, std::tuple<long, std::vector<int>>, std::vector<Op>> t) {
-            Prog p; p.nmods = nmods; p.profile = prop;
+            Prog p; p.nmods = nmods; p.profile = registry ? "registry" : prop;
             for (int i = 0; i < nmods; i++) {
                 p.mods[i].hooks = std::get<1>(t)[i];
                 for (int k = 0; k < P::CB_NKINDS; k++) p.mods[i].scripts[k] = std::get<0>(t)[i][k];
@@ -188,9 +201,9 @@ static rc::Gen<Prog> gen_prog(const rt::Args &args) {
             auto &pre = std::get<1>(std::get<2>(t));
             for (int i = 0; i < nmods; i++) {
                 if (pre[i] >= 1) { Op r; r.code = P::O_REG; r.s = i; r.a = 0; r.b = (i % 2); p.ops.push_back(r); }
-                if (pre[i] >= 2) { Op s; s.code = P::O_START; s.s = i; p.ops.push_back(s); }
+                if (pre[i] >= 2 && !registry) { Op s; s.code = P::O_START; s.s = i; p.ops.push_back(s); }
             }
-            if (std::get<0>(std::get<2>(t)) != 5) { Op d; d.code = P::O_DISPATCH; d.a = 1; p.ops.push_back(d); } // usually start the loop right away
+            if (!registry && std::get<0>(std::get<2>(t)) != 5) { Op d; d.code = P::O_DISPATCH; d.a = 1; p.ops.push_back(d); } // usually start the loop right away
             for (auto &o : std::get<3>(t)) p.ops.push_back(o);
             return p;
         });
